@@ -20,7 +20,8 @@ fn dot_table() -> Ranges {
 /// A bracketed class made only of literals, ranges, nested such classes and set operations on
 /// them has a meaning that needs no Unicode data: its table is computed here, independently of the
 /// crate (regex-syntax's translation of the class to code point ranges). Classes with named items
-/// (`\d`, `[:alpha:]`, `\p{..}`) or with a verbatim `.` (finding F3) are not handled.
+/// (`\d`, `[:alpha:]`, `\p{..}`) or with a verbatim `.` (finding F3) are not handled here (see
+/// `algebra_table`).
 pub fn native_table(text: &str) -> Option<Ranges> {
     use regex_syntax::ast::{ClassSet, ClassSetItem, LiteralKind};
     fn plain_item(i: &ClassSetItem) -> bool {
@@ -75,6 +76,23 @@ impl RefCache {
             self.map.lock().unwrap().insert(text.to_string(), t.clone());
             return t;
         }
+        // a bracketed class with named items: the set algebra over the tables of the named items
+        // *used alone* (what C08 states), computed here and not by the crate's composition code
+        if let Some(t) = self.algebra_table(text) {
+            let t = Some(Arc::new(t));
+            self.map.lock().unwrap().insert(text.to_string(), t.clone());
+            return t;
+        }
+        self.primitive(text)
+    }
+
+    /// The set a class denotes when it is the only pattern of a scanner (exhaustive enumeration of
+    /// the real match function).
+    fn primitive(&self, text: &str) -> Option<Arc<Ranges>> {
+        let key = format!("prim:{}", text);
+        if let Some(t) = self.map.lock().unwrap().get(&key) {
+            return t.clone();
+        }
         let mode = scnr::ScannerMode::new("R", vec![scnr::Pattern::new(text.to_string(), 0)], vec![]);
         let t = ScannerBuilder::new()
             .add_scanner_mode(mode)
@@ -88,8 +106,146 @@ impl RefCache {
                     None
                 }
             });
-        self.map.lock().unwrap().insert(text.to_string(), t.clone());
+        self.map.lock().unwrap().insert(key, t.clone());
         t
+    }
+
+    /// Textbook evaluation of a bracketed class over range tables: literals, ranges, nested
+    /// brackets, union, `&&`, `--`, `~~`, negation at any level; a named item contributes the table
+    /// it has when used alone (positive form), complemented if the item is negated. `None` for
+    /// classes with a verbatim `.` (finding F3) or valued Unicode classes.
+    fn algebra_table(&self, text: &str) -> Option<Ranges> {
+        use regex_syntax::ast::{ClassAsciiKind, ClassPerlKind, ClassSet, ClassSetBinaryOpKind, ClassSetItem, ClassUnicodeKind, LiteralKind};
+        fn norm(mut v: Ranges) -> Ranges {
+            v.sort();
+            let mut out: Ranges = Vec::new();
+            for (lo, hi) in v {
+                if let Some(last) = out.last_mut() {
+                    if lo <= last.1.saturating_add(1) {
+                        last.1 = last.1.max(hi);
+                        continue;
+                    }
+                }
+                out.push((lo, hi));
+            }
+            out
+        }
+        fn comp(v: &Ranges) -> Ranges {
+            // complement within the scalar values
+            let v = norm(v.clone());
+            let mut out = Vec::new();
+            for (base_lo, base_hi) in [(0u32, 0xD7FFu32), (0xE000, 0x10FFFF)] {
+                let mut at = base_lo;
+                let mut done = false;
+                for (lo, hi) in v.iter().cloned() {
+                    if hi < base_lo || lo > base_hi {
+                        continue;
+                    }
+                    let lo = lo.max(base_lo);
+                    let hi = hi.min(base_hi);
+                    if lo > at {
+                        out.push((at, lo - 1));
+                    }
+                    if hi == base_hi {
+                        done = true;
+                        break;
+                    }
+                    at = hi + 1;
+                }
+                if !done && at <= base_hi {
+                    out.push((at, base_hi));
+                }
+            }
+            out
+        }
+        fn union(a: &Ranges, b: &Ranges) -> Ranges {
+            let mut v = a.clone();
+            v.extend(b.iter().cloned());
+            norm(v)
+        }
+        fn inter(a: &Ranges, b: &Ranges) -> Ranges {
+            comp(&union(&comp(a), &comp(b)))
+        }
+        fn scalars(v: Ranges) -> Ranges {
+            comp(&comp(&v))
+        }
+        struct Ev<'c> {
+            cache: &'c RefCache,
+        }
+        impl Ev<'_> {
+            fn named(&self, standalone: String, negated: bool) -> Option<Ranges> {
+                let t = self.cache.primitive(&standalone)?;
+                Some(if negated { comp(&t) } else { scalars((*t).clone()) })
+            }
+            fn item(&self, i: &ClassSetItem) -> Option<Ranges> {
+                match i {
+                    ClassSetItem::Empty(_) => Some(vec![]),
+                    ClassSetItem::Literal(l) => {
+                        if l.c == '.' && matches!(l.kind, LiteralKind::Verbatim) {
+                            return None;
+                        }
+                        Some(vec![(l.c as u32, l.c as u32)])
+                    }
+                    ClassSetItem::Range(r) => {
+                        if (r.start.c == '.' && matches!(r.start.kind, LiteralKind::Verbatim)) || (r.end.c == '.' && matches!(r.end.kind, LiteralKind::Verbatim)) {
+                            return None;
+                        }
+                        Some(scalars(vec![(r.start.c as u32, r.end.c as u32)]))
+                    }
+                    ClassSetItem::Ascii(a) => {
+                        let name = match a.kind {
+                            ClassAsciiKind::Alnum => "alnum", ClassAsciiKind::Alpha => "alpha", ClassAsciiKind::Ascii => "ascii",
+                            ClassAsciiKind::Blank => "blank", ClassAsciiKind::Cntrl => "cntrl", ClassAsciiKind::Digit => "digit",
+                            ClassAsciiKind::Graph => "graph", ClassAsciiKind::Lower => "lower", ClassAsciiKind::Print => "print",
+                            ClassAsciiKind::Punct => "punct", ClassAsciiKind::Space => "space", ClassAsciiKind::Upper => "upper",
+                            ClassAsciiKind::Word => "word", ClassAsciiKind::Xdigit => "xdigit",
+                        };
+                        self.named(format!("[[:{}:]]", name), a.negated)
+                    }
+                    ClassSetItem::Perl(p) => {
+                        let c = match p.kind { ClassPerlKind::Digit => 'd', ClassPerlKind::Space => 's', ClassPerlKind::Word => 'w' };
+                        self.named(format!("\\{}", c), p.negated)
+                    }
+                    ClassSetItem::Unicode(u) => {
+                        let text = match &u.kind {
+                            ClassUnicodeKind::OneLetter(c) => format!("\\p{}", c),
+                            ClassUnicodeKind::Named(n) => format!("\\p{{{}}}", n),
+                            ClassUnicodeKind::NamedValue { .. } => return None,
+                        };
+                        self.named(text, u.negated)
+                    }
+                    ClassSetItem::Bracketed(b) => {
+                        let t = self.set(&b.kind)?;
+                        Some(if b.negated { comp(&t) } else { t })
+                    }
+                    ClassSetItem::Union(u) => {
+                        let mut acc: Ranges = vec![];
+                        for x in &u.items {
+                            acc = union(&acc, &self.item(x)?);
+                        }
+                        Some(acc)
+                    }
+                }
+            }
+            fn set(&self, s: &ClassSet) -> Option<Ranges> {
+                match s {
+                    ClassSet::Item(i) => self.item(i),
+                    ClassSet::BinaryOp(b) => {
+                        let (l, r) = (self.set(&b.lhs)?, self.set(&b.rhs)?);
+                        Some(match b.kind {
+                            ClassSetBinaryOpKind::Intersection => inter(&l, &r),
+                            ClassSetBinaryOpKind::Difference => inter(&l, &comp(&r)),
+                            ClassSetBinaryOpKind::SymmetricDifference => union(&inter(&l, &comp(&r)), &inter(&r, &comp(&l))),
+                        })
+                    }
+                }
+            }
+        }
+        let ast = Parser::new().parse(text).ok()?;
+        let Ast::ClassBracketed(b) = &ast else { return None };
+        let ev = Ev { cache: self };
+        let t = ev.set(&b.kind)?;
+        Some(if b.negated { comp(&t) } else { t })
     }
 }
 
